@@ -47,8 +47,8 @@ var (
 	idxC  = []string{"have", "miss", "eqN", "gtN", "neg1", "min"}
 	offC  = []string{"zero", "pos", "neg"}
 	lenC  = []string{"exact", "zero", "short", "long", "big", "max", "neg1", "min"}
-	bitsC = []string{"exact_none", "exact_some", "exact_all", "short", "empty", "long_clear", "long_set", "hugehdr", "absurdhdr", "trunc"}
-	rbC   = []string{"none", "ok", "badpid", "badbytes", "hugehdr", "long_set"}
+	bitsC = []string{"exact_none", "exact_some", "exact_all", "exact_stray", "short", "empty", "long_clear", "long_set", "hugehdr", "absurdhdr", "trunc"}
+	rbC   = []string{"none", "ok", "badpid", "badbytes", "hugehdr", "long_set", "stray"}
 	kinds = []string{"leech", "seed", "origin"}
 )
 
@@ -167,8 +167,11 @@ func knownDefectH(h hsCase) string {
 		return "F14c2"
 	case h.Bits != "trunc" && h.Bits != "absurdhdr" && h.Rb == "hugehdr":
 		return "F14c3"
-	case h.Bits == "long_set" && h.Rb != "badpid" && h.Rb != "badbytes" &&
+	case (h.Bits == "long_set" || h.Bits == "exact_stray") && h.Rb != "badpid" && h.Rb != "badbytes" &&
 		(h.Dir != "out" || h.Pid != "mismatch") && (h.Dir != "in" || (h.Name == "ok" && h.Ih == "ok")):
+		if h.Bits == "exact_stray" {
+			return "F14d"
+		}
 		return "F14c1"
 	}
 	return ""
@@ -238,6 +241,8 @@ func plan(seed int64, tier string) []traceSpec {
 		{"F14c2", nil, h(vb("out", "hugehdr", "ok")), kinds},
 		{"F14c3", nil, h(vb("in", "exact_some", "hugehdr")), kinds},
 		{"F14c3", nil, h(vb("out", "exact_all", "hugehdr")), kinds},
+		{"F14d", nil, h(vb("in", "exact_stray", "none")), kinds},
+		{"F14d", nil, h(vb("out", "exact_stray", "stray")), kinds},
 	}
 	seen := map[string]int{}
 	for i, k := range kns {
